@@ -381,7 +381,7 @@ class GCXS(SparseArray, NDArrayOperatorsMixin):
         x = self.change_compressed_axes(compressed_axes)
         idx = np.diff(x.indptr) != 0
         indptr = x.indptr[:-1][idx]
-        indices = (np.arange(x._compressed_shape[0], dtype=self.indptr.dtype))[idx]
+        indices = (np.arange(x._compressed_shape[0], dtype=x.indptr.dtype))[idx]
         data = method.reduceat(x.data, indptr, **kwargs)
         counts = x.indptr[1:][idx] - x.indptr[:-1][idx]
         arr_attrs = (x, compressed_axes, indices)
